@@ -51,11 +51,12 @@ LEVEL_TEXT = ("Lean 4 theorems over M_robs for every initial content, every list
               "consumer of the subscription ends with exactly the collection's contents, complete, without error, and its done "
               "flag is set iff done() was called; folding recv() results by hand gives the same. Proved once generically "
               "(Sys.mirror_generic) from two laws per collection (events of a call reproduce its effect under handle_event; the "
-              "incremental element stream rebuilds the contents), which are proved per collection. On the pinned tree the "
-              "property is false in two places, each with a kernel-checked counterexample: F4 (hash map retain with a mutating "
-              "predicate; theorem restricted to non-mutating predicates) and F13 (mirror of an incremental subscription taken "
-              "after done(); theorems for the task as coded exclude this case, the unrestricted ones hold for the repaired task "
-              "and for consumption by hand).")
+              "incremental element stream rebuilds the contents), which are proved per collection. The mirror task is the one "
+              "of the current tree (variant .fixed since the repair of F13 in /repo, be944ac: it leaves its loop only when done "
+              "and complete); the task as coded before (variant .pinned) keeps its restricted theorems and its kernel-checked "
+              "counterexample, and the driver reports its behaviour as a regression. Still false on the current tree, with a "
+              "kernel-checked counterexample: F4 (hash map retain with a mutating predicate; theorem restricted to "
+              "non-mutating predicates).")
 LEVEL_NOTE = ("Trusted: Lean kernel, the hand-written models incl. the std-collection definitions, harness/driver. The theorems "
               "assume the size limit passed to mirror() is not exceeded (Bounded); exceeding it is C14.")
 TECHNIQUE = "Lean 4 proof (generic theorem + per-collection laws) + per-call differential and predicate check against the real crate"
